@@ -904,6 +904,19 @@ class Interp:
             return True
         raise Unsupported(f"truthiness of {v!r} at {self.site}")
 
+    def known_sign(self, term):
+        """The sign classes the facts of this path allow for the term, without forking (None: nothing known)."""
+        try:
+            key, flip, c = self._canon_signed(term)
+        except Exception:
+            return None
+        if c is not None:
+            return frozenset(["neg" if c < 0 else ("zero" if c == 0 else "pos")])
+        al = self.num_facts.get(key)
+        if al is None:
+            return None
+        return frozenset(self._FLIP[a] for a in al) if flip else frozenset(al)
+
     def atom(self, key: str) -> bool:
         if "stale:" in key:
             raise HistoryDependence(self.site, f"a decision depends on {key[key.index('stale:'):].split('>')[0]}, a field that "
@@ -945,10 +958,16 @@ class Interp:
         if (fa is not None) != (fb is not None):
             import operator as _op
             fn0 = {ast.Lt: _op.lt, ast.LtE: _op.le, ast.Gt: _op.gt, ast.GtE: _op.ge}[type(op)]
-            if fa is not None and isinstance(b, (int, float)):
-                return self.char_test(SymChar(fa[0]), lambda x: fn0(fa[1](x), b), f"{fa[2]} cmp {b!r}")
-            if fb is not None and isinstance(a, (int, float)):
-                return self.char_test(SymChar(fb[0]), lambda x: fn0(a, fb[1](x)), f"{a!r} cmp {fb[2]}")
+            def same_family(x, y):
+                return isinstance(y, str) == isinstance(x, str)
+            if fa is not None and isinstance(b, (int, float, str)):
+                members = self.charsets[fa[0]]
+                if all(same_family(fa[1](m), b) for m in members):
+                    return self.char_test(SymChar(fa[0]), lambda x: fn0(fa[1](x), b), f"{fa[2]} cmp {b!r}")
+            if fb is not None and isinstance(a, (int, float, str)):
+                members = self.charsets[fb[0]]
+                if all(same_family(fb[1](m), a) for m in members):
+                    return self.char_test(SymChar(fb[0]), lambda x: fn0(a, fb[1](x)), f"{a!r} cmp {fb[2]}")
         if isinstance(a, (SymChar, SymStr)) or isinstance(b, (SymChar, SymStr)):
             import operator as _op
             fn = {ast.Lt: _op.lt, ast.LtE: _op.le, ast.Gt: _op.gt, ast.GtE: _op.ge}[type(op)]
@@ -961,6 +980,12 @@ class Interp:
                 return self.char_test(x, lambda ch: fn(ch, y), f"ch{x.cid}{sym}{y!r}")
             if isinstance(y, SymChar) and isinstance(x, str):
                 return self.char_test(y, lambda ch: fn(x, ch), f"{x!r}{sym}ch{y.cid}")
+            if isinstance(x, FinExpr) and isinstance(y, str):
+                return self.char_test(SymChar(x.cid), lambda ch, f=x.fn: fn(f(ch), y), f"{x.desc}{sym}{y!r}")
+            if isinstance(y, FinExpr) and isinstance(x, str):
+                return self.char_test(SymChar(y.cid), lambda ch, f=y.fn: fn(x, f(ch)), f"{x!r}{sym}{y.desc}")
+            if isinstance(x, str) and isinstance(y, str):
+                return fn(x, y)
             raise Unsupported("ordering between two symbolic characters")
         ta, tb = self.to_term(a), self.to_term(b)
         if ta is not None and tb is not None:
@@ -1012,10 +1037,20 @@ class Interp:
             return a == b
         return self._equal(a, b)
 
+    _NODE_DUNDERS = ("__eq__", "__ne__")
+
     def _dunder(self, obj, name: str):
-        """The user-defined special method of a plain object (not a tree node), or None."""
+        """The user-defined special method of a plain object, or - for the comparison methods - of a tree node (forks
+        over the node's kinds when only some of its classes define it), or None."""
         if isinstance(obj, Rec):
             return self.prog.find_method(obj.cls.name, name)
+        if isinstance(obj, Node) and name in self._NODE_DUNDERS:
+            if name not in self.prog.__dict__.setdefault("_node_dunders", {}):
+                self.prog._node_dunders[name] = any(name in c.methods for c in self.prog.classes.values()
+                                                    if self.prog.is_subclass(c.name, "BinaryTreeNode"))
+            if not self.prog._node_dunders[name]:
+                return None
+            return self.dispatch_method(self.cell(obj), name)
         return None
 
     def _is_dataclass(self, obj) -> bool:
@@ -1163,7 +1198,8 @@ class Interp:
         if m is not None:
             return self.truth(self.call_function(m, [container, x], {}), "__contains__")
         if isinstance(container, (Lst, Tup)):
-            return any(self._equal(x, y) for y in container.items)
+            return any((isinstance(x, Node) and isinstance(y, Node) and x.cid == y.cid) or self._equal(x, y)
+                       for y in container.items)
         if isinstance(container, str) and isinstance(x, str):
             return x in container
         if isinstance(container, str) and isinstance(x, (SymChar, SymStr)):
@@ -1439,6 +1475,10 @@ class Interp:
                     if not self._contains(out, x):
                         out.items.append(x)
             return out
+        if name in ("int", "float") and args and isinstance(args[0], Opaque) and args[0].tag.startswith("text:"):
+            # the text of a literal, kept as a symbol: the conversion is recorded by name, so that an analysis can tell the
+            # exact integer conversion from a detour through a float
+            return Num(("fn", f"{name}_of_text", ("atom", args[0].tag)))
         if name == "int":
             v = args[0]
             if isinstance(v, (int, float)):
@@ -1466,6 +1506,11 @@ class Interp:
             if isinstance(v, (int, float)):
                 return abs(v)
             if isinstance(v, Num):
+                ks = self.known_sign(v.term)
+                if ks is not None and ks <= frozenset(["pos", "zero"]):
+                    return v                       # |x| is x for a value already known non-negative
+                if ks is not None and ks <= frozenset(["neg"]):
+                    return Num(("neg", v.term))
                 return Num(("fn", "abs", v.term))
         if name in ("min", "max") and not kwargs:
             vals = args[0].items if len(args) == 1 and isinstance(args[0], (Lst, Tup)) else args
@@ -1918,6 +1963,8 @@ class Interp:
         if isinstance(obj, (SymStr, SymChar)) and attr in ("isdigit", "isalpha", "isspace", "isalnum", "isupper", "islower",
                                                            "isnumeric", "isdecimal", "isascii"):
             return Bound(obj, _StrMethod("symtest:" + attr))
+        if isinstance(obj, Num) and attr == "is_integer":
+            return Bound(obj, _StrMethod("num:is_integer"))
         if isinstance(obj, FactorDict):
             if attr in ("keys",):
                 return Bound(obj, _StrMethod("keys"))
@@ -2033,11 +2080,48 @@ class Interp:
                 return ("classattr", Opaque(f"classattr:{attr}"))
         return None
 
+    def _slots_of(self, cname: str):
+        """None when instances of the class have a __dict__ (some class of the MRO lacks __slots__), else the set of
+        slot names of the whole MRO."""
+        cache = self.prog.__dict__.setdefault("_slots_cache", {})
+        if cname in cache:
+            return cache[cname]
+        names: set = set()
+        result: Any = names
+        for c in self.prog.mro(self.prog.cls(cname)):
+            e = c.class_attrs.get("__slots__")
+            if e is None:
+                result = None
+                break
+            try:
+                val = ast.literal_eval(e)
+            except Exception:
+                result = None
+                break
+            names.update([val] if isinstance(val, str) else list(val))
+        cache[cname] = result
+        return result
+
     def setattr_(self, obj, attr: str, v) -> None:
         if isinstance(obj, Node):
-            self.write_field(self.cell(obj), attr, v)
+            cell = self.cell(obj)
+            if any("__slots__" in c.class_attrs for c in self.prog.classes.values()):
+                restricted = {k for k in self.kinds_of(cell) if self._slots_of(k) is not None and attr not in self._slots_of(k)}
+                if restricted:
+                    if restricted != set(self.kinds_of(cell)):
+                        i = self.choose(2, f"slots({cell.cid}).{attr}", ["no-such-slot", "settable"])
+                        self.refine_node(cell, frozenset(restricted) if i == 0 else frozenset(self.kinds_of(cell)) - restricted)
+                        if i == 1:
+                            self.write_field(cell, attr, v)
+                            return
+                    raise AbsRaise("AttributeError", self.site, f"object has no attribute '{attr}' (__slots__)")
+            self.write_field(cell, attr, v)
             return
         if isinstance(obj, Rec):
+            sl = self._slots_of(obj.cls.name) if "__slots__" in obj.cls.class_attrs or any(
+                "__slots__" in c.class_attrs for c in self.prog.mro(obj.cls)) else None
+            if sl is not None and attr not in sl:
+                raise AbsRaise("AttributeError", self.site, f"'{obj.cls.name}' object has no attribute '{attr}' (__slots__)")
             old = obj.fields.get(attr, _MISSING)
             if self.retained_mode == 0:
                 obj.touched.add(attr)
@@ -2950,6 +3034,8 @@ Interp.call_function = _call_function  # type: ignore
 def _call_builtin_method(self: Interp, info, args, kwargs):
     obj, rest = args[0], args[1:]
     n = info.name
+    if n == "num:is_integer":
+        return self.atom(f"is_integer({A.term_str(obj.term)})")
     if n.startswith("re:"):
         return self._regex_call(obj, n[3:], list(rest), kwargs)
     if n.startswith("match:"):
